@@ -19,6 +19,14 @@ func VerifRoot() string {
 	return "/verif"
 }
 
+// OutRoot is where evidence/ and replay/ are written: VERIF_OUT if set (seeded-change runs), else VerifRoot().
+func OutRoot() string {
+	if d := os.Getenv("VERIF_OUT"); d != "" {
+		return d
+	}
+	return VerifRoot()
+}
+
 // Run is the per-invocation context handed to a property check.
 type Run struct {
 	Property string
@@ -43,6 +51,13 @@ type Run struct {
 	Required    []string // outcome labels that must be observed (vacuity guard)
 	Notes       []string
 	Replayers   map[string]func(cfg json.RawMessage, path []string) (StepResult, error)
+	nondet      []nondetRec
+}
+
+type nondetRec struct {
+	msg  string
+	path []string
+	cfg  any
 }
 
 // NewRun creates the run context.
@@ -102,6 +117,9 @@ func (r *Run) AddSearch(name string, cfg any, sr SearchResult) {
 		"exhaustive": sr.Exhaustive, "rebuilt_by_replay": sr.Rebuilt,
 	})
 	r.Violations = append(r.Violations, sr.Violations...)
+	if sr.Nondet != "" {
+		r.nondet = append(r.nondet, nondetRec{msg: name + ": " + sr.Nondet, path: sr.NondetPath, cfg: cfg})
+	}
 	fmt.Printf("[%s] %s: states=%d transitions=%d dedup=%d max_depth=%d per_level=%v exhaustive=%v violations=%d (%.1fs)\n",
 		r.Property, name, sr.States, sr.Transitions, sr.DedupHits, sr.MaxDepth, sr.PerLevel, sr.Exhaustive, len(sr.Violations), time.Since(r.start).Seconds())
 }
@@ -168,7 +186,7 @@ func (r *Run) Finish() int {
 	sort.Strings(order)
 	newViol := 0
 	knownSeen := 0
-	_ = os.MkdirAll(filepath.Join(VerifRoot(), "replay"), 0o755)
+	_ = os.MkdirAll(filepath.Join(OutRoot(), "replay"), 0o755)
 	for i, fp := range order {
 		v := byFP[fp]
 		if kf, ok := known[fp]; ok {
@@ -177,7 +195,7 @@ func (r *Run) Finish() int {
 			continue
 		}
 		newViol++
-		file := filepath.Join(VerifRoot(), "replay", fmt.Sprintf("%s-%d.json", r.Property, i+1))
+		file := filepath.Join(OutRoot(), "replay", fmt.Sprintf("%s-%d.json", r.Property, i+1))
 		b, _ := json.MarshalIndent(map[string]any{
 			"property": r.Property, "tier": r.Tier, "seed": Seed(), "config": v.Config, "path": v.Path,
 			"fingerprint": v.Fingerprint, "detail": v.Detail, "occurrences": count[fp],
@@ -220,8 +238,8 @@ func (r *Run) Finish() int {
 		ev["assumptions"] = []string{}
 	}
 	b, _ := json.MarshalIndent(ev, "", " ")
-	_ = os.MkdirAll(filepath.Join(VerifRoot(), "evidence"), 0o755)
-	if err := os.WriteFile(filepath.Join(VerifRoot(), "evidence", r.Property+".json"), b, 0o644); err != nil {
+	_ = os.MkdirAll(filepath.Join(OutRoot(), "evidence"), 0o755)
+	if err := os.WriteFile(filepath.Join(OutRoot(), "evidence", r.Property+".json"), b, 0o644); err != nil {
 		fmt.Printf("HARNESS-ERROR: cannot write evidence: %v\n", err)
 		return 3
 	}
@@ -229,6 +247,10 @@ func (r *Run) Finish() int {
 		r.Property, r.Tier, r.States, r.Transitions, r.Evaluations, r.Distinct, distinctOutcomes, r.Exhaustive, newViol, knownSeen, wall)
 	if newViol > 0 {
 		return 1
+	}
+	if len(r.nondet) > 0 {
+		fmt.Printf("HARNESS-ERROR: HARNESS-NONDETERMINISM: %s (no violation of the property's monitors could be reproduced with a single discarded execution)\n", r.nondet[0].msg)
+		return 3
 	}
 	if len(missing) > 0 {
 		if !r.Exhaustive {
@@ -269,10 +291,16 @@ func IDs() []string {
 }
 
 // ConfirmViolations re-executes the shortest path of every distinct fingerprint twice on fresh
-// worlds and requires the same fingerprint both times; divergence is a harness error, never a
-// violation.
+// worlds and requires the same fingerprint both times.  A violation that does not reproduce, and a search that stopped
+// because a replayed path gave a different state, go to DiagnoseGhost: if the path plus one discarded execution
+// reproduces a monitor violation on fresh applications (twice), that witness replaces the unreproducible record;
+// otherwise the divergence is a harness error (exit 3), never a violation.
 func (r *Run) ConfirmViolations(mk func(cfg any) Spec) {
 	seen := map[string]bool{}
+	deadline := time.Now().Add(6 * time.Minute)
+	var confirmed []FoundViolation
+	drop := map[string]bool{}
+	var unreproduced []FoundViolation
 	for _, v := range r.Violations {
 		if seen[v.Fingerprint] {
 			continue
@@ -285,7 +313,8 @@ func (r *Run) ConfirmViolations(mk func(cfg any) Spec) {
 		if sp == nil {
 			continue // violation found by another engine of the same check (confirmed there)
 		}
-		for k := 0; k < 2; k++ {
+		ok := true
+		for k := 0; k < 2 && ok; k++ {
 			last, _, _ := Replay(sp, v.Path)
 			found := false
 			for _, lv := range last.Violations {
@@ -294,8 +323,69 @@ func (r *Run) ConfirmViolations(mk func(cfg any) Spec) {
 				}
 			}
 			if !found {
-				Fatal3("HARNESS-NONDETERMINISM: violation %q on path %v did not reproduce on replay %d", v.Fingerprint, v.Path, k+1)
+				if k == 1 {
+					Fatal3("HARNESS-NONDETERMINISM: violation %q on path %v reproduced on the first replay but not on the second", v.Fingerprint, v.Path)
+				}
+				ok = false
+			}
+		}
+		if ok {
+			continue
+		}
+		drop[v.Fingerprint] = true
+		unreproduced = append(unreproduced, v)
+		if len(confirmed) > 0 {
+			continue // one reproducible witness is enough; the other unreproducible records are consequences
+		}
+		if w, gv := r.ghostWitness(sp, v.Path, v.Fingerprint, false, deadline); w != nil {
+			confirmed = append(confirmed, FoundViolation{Violation: gv, Path: w, Config: v.Config})
+		}
+	}
+	if len(confirmed) == 0 {
+		for _, nd := range r.nondet {
+			sp := mk(nd.cfg)
+			if sp == nil {
+				continue
+			}
+			if w, gv := r.ghostWitness(sp, nd.path, "", true, deadline); w != nil {
+				confirmed = append(confirmed, FoundViolation{Violation: gv, Path: w, Config: nd.cfg})
+				break
 			}
 		}
 	}
+	if len(unreproduced) > 0 && len(confirmed) == 0 {
+		v := unreproduced[0]
+		Fatal3("HARNESS-NONDETERMINISM: violation %q on path %v did not reproduce on replay, and no single discarded execution explains it", v.Fingerprint, v.Path)
+	}
+	if len(drop) > 0 || len(confirmed) > 0 {
+		var keep []FoundViolation
+		for _, v := range r.Violations {
+			if !drop[v.Fingerprint] {
+				keep = append(keep, v)
+			}
+		}
+		r.Violations = append(keep, confirmed...)
+		if len(confirmed) > 0 {
+			r.nondet = nil // explained by the witness
+		}
+	}
+}
+
+// ghostWitness runs DiagnoseGhost and confirms the witness by a second fresh replay.
+func (r *Run) ghostWitness(sp Spec, path []string, fp string, lookahead bool, deadline time.Time) ([]string, Violation) {
+	w, gv := DiagnoseGhost(sp, path, fp, lookahead, 400, deadline)
+	if w == nil {
+		return nil, Violation{}
+	}
+	all, _, _, _ := replayAll(sp, w, false)
+	if len(all) > 0 {
+		for _, v := range all[len(all)-1].Violations {
+			if v.Fingerprint == gv.Fingerprint {
+				gv.Detail += fmt.Sprintf(" [witness contains a discarded execution (%q events): a transaction executed on a branch of the state that is thrown away — failing later message, out-of-gas after the handler, gas simulation — still changed later behaviour, so the implementation keeps state outside the stores]", GhostPrefix)
+				r.Notes = append(r.Notes, fmt.Sprintf("the branching search observed %q-class behaviour that a plain replay does not show; explained and reproduced by the discarded-execution witness %v", gv.Fingerprint, w))
+				return w, gv
+			}
+		}
+	}
+	return nil, Violation{}
 }
